@@ -8,6 +8,9 @@ CONSTANTS
   Interleave = FALSE
   Cfgs <- TraceCfgs
   OraclesFor <- TraceOraclesFor
+  MaxAccts = 0
+  AnswersFor <- AllAnswers
+  Deviation = {}
 INVARIANTS TypeOK JobTimeRight JobCoversExactly NoSlotTwice OneJobPerDutySlot OnlyStrictlyLaterOnStart SyncWindowRight EpochTickOnce NoFutureDutyUnscheduled NoStaleJob ReorgActedOn
 CONSTRAINT HWM
 POSTCONDITION TraceAccepted
